@@ -39,3 +39,71 @@ Example C07_witness :
   StoreBOrder.illformed s (StoreB.Put 1 0 5) = true /\ StoreBOrder.illformed s (StoreB.Put 0 0 5) = false /\
   StoreBOrder.illformed s (StoreB.CGet 7) = true.
 Proof. vm_compute. auto. Qed.
+
+(* ---- the edge wrappers of the factory model (theories/Factory/FactoryReject.v), every world ----
+   a put / get / cancel offered to an edge with a token its store does not hold for the caller is refused with the documented
+   error (the run ends with an unhandled RuntimeError); every store of the factory, the kernel, the movement log, the nodes,
+   the processes and the items are as they were *)
+From RecordUpdate Require Import RecordUpdate.
+From FV Require Kernel World Factory FactoryReject.
+Import World.
+
+Theorem C07_edge_cancel_put_refused_is_noop :
+  forall w e t, StoreBOrder.illformed (est (get_edge w e)) (StoreB.CPut t) = true ->
+  let w' := e_cancel_put w e t in
+  FactoryReject.untouched w w' /\ (wcrash w = None -> wcrash w' = Some (CRuntime 10)).
+Proof. exact FactoryReject.cancel_put_refused. Qed.
+Print Assumptions C07_edge_cancel_put_refused_is_noop.
+
+Theorem C07_edge_cancel_get_refused_is_noop :
+  forall w e t, StoreBOrder.illformed (est (get_edge w e)) (StoreB.CGet t) = true ->
+  let w' := e_cancel_get w e t in
+  FactoryReject.untouched w w' /\ (wcrash w = None -> wcrash w' = Some (CRuntime 11)).
+Proof. exact FactoryReject.cancel_get_refused. Qed.
+Print Assumptions C07_edge_cancel_get_refused_is_noop.
+
+Theorem C07_edge_get_refused_is_noop :
+  forall w e p t n, StoreBOrder.illformed (est (get_edge w e)) (StoreB.Get p t) = true ->
+  let r := Factory.e_get w e p t n in
+  FactoryReject.untouched w (fst r) /\ snd r = None /\ (wcrash w = None -> wcrash (fst r) = Some (CRuntime 33)).
+Proof. exact FactoryReject.get_refused. Qed.
+Print Assumptions C07_edge_get_refused_is_noop.
+
+(* the hand-over: a Fleet refuses at once; a Buffer has drawn its delay by then (its delay stream has moved on, and a negative
+   delay is the Buffer's own assertion) -- stores, kernel, log, nodes, processes and items are as before *)
+Theorem C07_edge_put_refused_is_noop :
+  forall w e p t i, StoreBOrder.illformed (est (get_edge w e)) (StoreB.Put p t i) = true ->
+  let w' := Factory.e_put w e p t i in
+  (forall e', est (get_edge w' e') = est (get_edge w e')) /\ wk w' = wk w /\ wlog w' = wlog w /\
+  wnodes w' = wnodes w /\ wprocs w' = wprocs w /\ witems w' = witems w /\
+  (wcrash w = None -> exists c, wcrash w' = Some c /\ (c = CRuntime 31 \/ c = CRuntime 32 \/ c = CAssert 30)).
+Proof. exact FactoryReject.put_refused. Qed.
+Print Assumptions C07_edge_put_refused_is_noop.
+
+(* a token that ANOTHER edge issued (held there, unknown here): cancelling it here is refused, and it is still held there *)
+Theorem C07_foreign_cancel_put_refused :
+  forall w e e' t, FactoryReject.holds_put w e t = false -> FactoryReject.holds_put w e' t = true ->
+  let w' := e_cancel_put w e t in
+  FactoryReject.holds_put w' e' t = true /\ FactoryReject.holds_put w' e t = false /\
+  (wcrash w = None -> wcrash w' = Some (CRuntime 10)).
+Proof. exact FactoryReject.foreign_cancel_put_refused. Qed.
+Print Assumptions C07_foreign_cancel_put_refused.
+
+Theorem C07_foreign_cancel_get_refused :
+  forall w e e' t, FactoryReject.holds_get w e t = false -> FactoryReject.holds_get w e' t = true ->
+  let w' := e_cancel_get w e t in
+  FactoryReject.holds_get w' e' t = true /\ FactoryReject.holds_get w' e t = false /\
+  (wcrash w = None -> wcrash w' = Some (CRuntime 11)).
+Proof. exact FactoryReject.foreign_cancel_get_refused. Qed.
+Print Assumptions C07_foreign_cancel_get_refused.
+
+(* the premises are met: two buffers, a space request placed on the second; offered to the first it is refused *)
+Example C07_foreign_witness :
+  let ed := edge0 <| est := StoreB.init StoreB.KBuffer StoreB.FIFO 2 |> in
+  let w0 := {| wk := Kernel.kinit; wedges := [ed; ed]; wnodes := []; wprocs := []; witems := []; wlog := [];
+               wcrash := None; wactive := 0 |} in
+  let '(w1, t) := e_reserve_put w0 1 0 in
+  FactoryReject.holds_put w1 0 t = false /\ FactoryReject.holds_put w1 1 t = true /\
+  wcrash (e_cancel_put w1 0 t) = Some (CRuntime 10) /\ wcrash (e_cancel_put w1 1 t) = None /\
+  FactoryReject.holds_put (e_cancel_put w1 1 t) 1 t = false.
+Proof. vm_compute. repeat split; reflexivity. Qed.
